@@ -163,6 +163,8 @@ def merge_scans(extracts, problems):
             if m['table'] != s['table']:
                 problems.append('%s: scan reads %s under one zone and %s under another' % (k, m['table'], s['table']))
                 continue
+            if 'local' in (m['wrule'], s['wrule']):      # a UTC process cannot tell the writer's "local" rule from "utc"
+                m['wrule'] = 'local'
             for b in ('ts_lo', 'ts_hi', 'd_lo', 'd_hi'):
                 if (m[b] is None) != (s[b] is None):
                     m.setdefault('extra', []).append('%s present under one zone only' % b)
@@ -220,7 +222,8 @@ def run_in(tier, sd):
         zones = ['UTC', 'America/New_York', 'Europe/Moscow']
     assumptions = [
         'the ClickHouse server runs in UTC (date columns filled by materialized views with toDate(); chsql evaluates date functions in UTC)',
-        'rows of the store are planted with the writer\'s date rule (time_series / profiles: UTC day; tempo tags: day in the writer\'s zone); '
+        'rows of the store are planted with the writer\'s date rule (time_series / profiles: UTC day; tempo tags: UTC day or day in the '
+        'writer\'s zone, whichever the real writer is observed to store in a process whose zone is not UTC); '
         'the rule is bound to the real writer by pushing records around a UTC midnight through the real routes in every driver process',
         'LogQL start/end are parsed as float64 by the controller: only multiples of 256 ns are representable, windows use multiples of 1024 ns',
         'quanta of the model (second = 2 ticks, 15 s = 4 ticks, range bucket = 5 ticks) are abstract stand-ins; the concrete oracle of the driver uses the real quanta',
@@ -246,6 +249,8 @@ def run_in(tier, sd):
             problems.append('TZ=%s: no writer observations' % z)
     if problems:
         raise vlib.Infra('extraction problems (%d), first: %s' % (len(problems), ' || '.join(problems[:5])))
+    # the date rule of the tempo tag tables as observed on the real writer (processes outside UTC can tell)
+    tempo_rule = 'local' if any(o['rule'] == 'local' for ex in extracts.values() for o in ex['writer_obs'] if o['table'] == 'tempo_traces_attrs_gin') else 'utc'
     merged = merge_scans(list(extracts.values()), problems)
     descs, index_of, scan_desc, nowindow = [], {}, {}, 0
     for k, s in sorted(merged.items()):
@@ -347,7 +352,7 @@ def run_in(tier, sd):
         inp = os.path.join(sd, 'jobs_%s.json' % z.replace('/', '_'))
         outp = os.path.join(sd, 'probe_%s.json' % z.replace('/', '_'))
         json.dump(jobs[z], open(inp, 'w'))
-        procs[z] = (run_driver(binp, z, ['-mode', 'probe', '-in', inp, '-out', outp], 600), outp)
+        procs[z] = (run_driver(binp, z, ['-mode', 'probe', '-tempo-rule', tempo_rule, '-in', inp, '-out', outp], 600), outp)
     probes = wait_all(procs, 'probe', 300 if tier == 'quick' else 800)
     findings, n_probe, probe_errors = [], 0, []
     for z, ex in extracts.items():
@@ -456,6 +461,7 @@ def run_in(tier, sd):
         'candidates_refuted_or_unconfirmed': [('%s: %s' % (k[1], desc_sig(by_id[k[0]]))) for k in refuted],
         'witness_replays': sum(len(v) for v in jobs.values()),
         'real_code_observations': len(findings), 'writer_rule_observations': sum(len(ex['writer_obs']) for ex in extracts.values()),
+        'tempo_tag_date_rule_observed': tempo_rule,
         'statements_rejected_by_the_interpreter_for_other_reasons': stmt_errors[:6],
         'requests_answered_non_2xx_after_running_sql': sum(len(ex.get('non2xx') or []) for ex in extracts.values()),
         'wall_s': round(time.time() - t_start, 1),
